@@ -102,6 +102,8 @@ struct KeyFacts {
     accesses:     usize,
     /// executed SLOAD / SSTORE instructions (by code byte), summed over explored paths
     storage_ops:  usize,
+    /// some value is a mask of a (shifted) masked value
+    nested_masks: bool,
 }
 
 /// keccak images of constant data under a Sha3 node, in the forms the proxy-slot pass documents:
@@ -172,8 +174,46 @@ fn consts_of(v: &RuntimeBoxedVal, into: &mut BTreeSet<String>, derived: &mut BTr
     }
 }
 
+/// Does some value mask a (shifted) value that is itself a masked value?  (a sub-word of a sub-word)
+fn has_nested_masks(vals: &[RuntimeBoxedVal]) -> bool {
+    fn is_const(v: &RuntimeBoxedVal) -> bool {
+        matches!(v.constant_fold().data(), SVD::KnownData { .. })
+    }
+    fn masked(v: &RuntimeBoxedVal) -> Option<RuntimeBoxedVal> {
+        if let SVD::And { left, right } = v.data() {
+            if is_const(left) && !is_const(right) {
+                return Some(right.clone());
+            }
+            if is_const(right) && !is_const(left) {
+                return Some(left.clone());
+            }
+        }
+        None
+    }
+    fn through_shift(v: &RuntimeBoxedVal) -> RuntimeBoxedVal {
+        match v.data() {
+            SVD::RightShift { value, .. } | SVD::LeftShift { value, .. } => value.clone(),
+            SVD::Divide { dividend, .. } => dividend.clone(),
+            SVD::Multiply { left, right } => if is_const(left) { right.clone() } else { left.clone() },
+            _ => v.clone(),
+        }
+    }
+    let mut found = false;
+    for v in vals {
+        values::walk(v, &mut |n| {
+            if let Some(inner) = masked(n) {
+                if masked(&through_shift(&inner)).is_some() {
+                    found = true;
+                }
+            }
+        });
+    }
+    found
+}
+
 fn key_facts(vals: &[RuntimeBoxedVal]) -> KeyFacts {
     let mut f = KeyFacts::default();
+    f.nested_masks = has_nested_masks(vals);
     for v in vals {
         values::walk(v, &mut |n| {
             let (key, value) = match n.data() {
@@ -215,6 +255,7 @@ pub fn observe(code: &[u8], lim: &Limits) -> Observed {
     let code2 = code.to_vec();
     let code_bytes = code.to_vec();
     let cfg = vm_config(lim);
+    storage_layout_extractor::verif::start();
     let r = guarded(move || {
         let contract = Contract::new(
             code2,
@@ -260,6 +301,16 @@ pub fn observe(code: &[u8], lim: &Limits) -> Observed {
         let ex = ex.prepare_unifier().infer().map_err(|e| format!("{e:?}"))?;
         Ok::<_, String>((ex.layout().clone(), facts, vals.len()))
     });
+    // literal keys of the SLOAD / SSTORE instructions the VM executed, as reported by the hooks
+    let mut exec_literal: BTreeSet<String> = BTreeSet::new();
+    for e in storage_layout_extractor::verif::take() {
+        if let storage_layout_extractor::verif::Event::StorageAccess { key: Some(k), .. } = e {
+            let h = hex::encode(k);
+            if PREIMAGES.with(|p| !p.contains_key(&h)) {
+                exec_literal.insert(h);
+            }
+        }
+    }
     match r {
         Err(p) => Observed {
             res:     "panic",
@@ -280,7 +331,7 @@ pub fn observe(code: &[u8], lim: &Limits) -> Observed {
             msg:     String::new(),
             entries: entries_json(&layout),
             keys:    json!({"consts": f.consts, "literal": f.literal, "derived": f.derived,
-                            "value_consts": f.value_consts, "accesses": f.accesses, "storage_ops": f.storage_ops}),
+                            "value_consts": f.value_consts, "accesses": f.accesses, "storage_ops": f.storage_ops, "nested_masks": f.nested_masks, "exec_literal": exec_literal}),
             values:  n,
         },
     }
@@ -306,6 +357,46 @@ fn mask_shift_program(rng: &mut StdRng) -> Vec<u8> {
     let masks: [&[u8]; 8] = [&[0xff], &[0xff, 0xff], &[0xff; 20], &[0xff, 0], &[0xff, 0, 0, 0, 0], &[0xff; 32],
                              &[0xff, 0xff, 0, 0, 0, 0, 0, 0, 0, 0, 0, 0, 0, 0, 0, 0, 0, 0, 0, 0, 0, 0, 0, 0, 0, 0, 0, 0, 0, 0, 0, 0], &[0x0f]];
     let mut items = Vec::new();
+    // shifts right at the edge of the word with narrow masks: the region ends at 255, 256, 257 ...
+    if rng.gen_bool(0.2) {
+        let sh: u16 = rng.gen_range(240..=262);
+        let mask: Vec<u8> = (*[&[0x01u8][..], &[0xff], &[0xff, 0xff], &[0x03]].choose(rng).unwrap()).to_vec();
+        items.extend([p1(0), Item::Op(0x54), Item::Push(vec![(sh >> 8) as u8, (sh & 0xff) as u8]), Item::Op(0x1c), Item::Push(mask), Item::Op(0x16), p1(1), Item::Op(0x55), Item::Op(0x00)]);
+        return assemble(&items);
+    }
+    // several extractions from ONE slot, some of them nested, stored to different slots
+    if rng.gen_bool(0.2) {
+        for i in 0..rng.gen_range(2..4u8) {
+            items.extend([p1(0), Item::Op(0x54)]);
+            if rng.gen_bool(0.5) {
+                items.extend([Item::Push(vec![0xff; 7]), Item::Op(0x16), p1(*[8u8, 16, 40, 100].choose(rng).unwrap()), Item::Op(0x1c)]);
+            } else {
+                items.extend([p1(*[8u8, 64, 72, 128, 200].choose(rng).unwrap()), Item::Op(0x1c)]);
+            }
+            items.extend([p1(0xff), Item::Op(0x16), p1(i + 1), Item::Op(0x55)]);
+        }
+        items.push(Item::Op(0x00));
+        return assemble(&items);
+    }
+    // sub-words of sub-words, and masked values moved by a multiplication with a power of two
+    if rng.gen_bool(0.35) {
+        let a: u8 = *[0u8, 8, 64, 100, 200, 248].choose(rng).unwrap();
+        let b: u8 = *[0u8, 8, 56, 100, 200].choose(rng).unwrap();
+        let m1 = masks[rng.gen_range(0..3)].to_vec();
+        if rng.gen_bool(0.5) {
+            // sstore(1, (((sload(0) >> a) & m1) >> b) & 0xff)
+            items.extend([p1(0), Item::Op(0x54), p1(a), Item::Op(0x1c), Item::Push(m1), Item::Op(0x16), p1(b), Item::Op(0x1c), p1(0xff), Item::Op(0x16), p1(1), Item::Op(0x55)]);
+        } else {
+            // sstore(1, (sload(0) & m1) * 2^k)
+            let k = *[8u32, 64, 128, 200, 248, 255].choose(rng).unwrap();
+            let mut pow = [0u8; 32];
+            pow[31 - (k / 8) as usize] = 1 << (k % 8);
+            let first = pow.iter().position(|b| *b != 0).unwrap();
+            items.extend([p1(0), Item::Op(0x54), Item::Push(m1), Item::Op(0x16), Item::Push(pow[first..].to_vec()), Item::Op(0x02), p1(1), Item::Op(0x55)]);
+        }
+        items.push(Item::Op(0x00));
+        return assemble(&items);
+    }
     for i in 0..rng.gen_range(1..4u8) {
         let shift = shifts.choose(rng).unwrap().to_vec();
         let mask = masks.choose(rng).unwrap().to_vec();
@@ -397,7 +488,25 @@ fn literal_key_program(rng: &mut StdRng) -> Vec<u8> {
             }
             _ => vec![0x80, 0, 0, 0, 0, 0, 0, 0, 0, 0, 0, 0, 0, 0, 0, 0, 0, 0, 0, 0, 0, 0, 0, 0, 0, 0, 0, 0, 0, 0, 0, 1],
         };
-        match rng.gen_range(0..3) {
+        match rng.gen_range(0..6) {
+            3 => {
+                // a read whose value is consumed by an expression that outgrows the size limit
+                items.extend([Item::Push(key), Item::Op(0x54)]);
+                for _ in 0..rng.gen_range(8..10) {
+                    items.extend([Item::Op(0x80), Item::Op(0x01)]);
+                }
+                items.push(Item::Op(0x50));
+            }
+            4 => {
+                // clearing one member of a packed slot: sstore(k, sload(k) & ~0xff)
+                let mut m = vec![0xffu8; 32];
+                m[31] = 0;
+                items.extend([Item::Push(key.clone()), Item::Op(0x54), Item::Push(m), Item::Op(0x16), Item::Push(key), Item::Op(0x55)]);
+            }
+            5 => {
+                // the key computed from constants: still a constant key once folded
+                items.extend([Item::Push(key), Item::Op(0x54), Item::Op(0x50)]);
+            }
             0 => items.extend([Item::Push(key), Item::Op(0x54), Item::Op(0x50)]),
             1 => items.extend([p1(4), Item::Op(0x35), Item::Push(key), Item::Op(0x55)]),
             _ => items.extend([Item::Push(key.clone()), Item::Op(0x54), p1(1), Item::Op(0x01), Item::Push(key), Item::Op(0x55)]),
@@ -464,10 +573,16 @@ pub fn run(o: &Opts) -> R<()> {
         *fams.entry(fam.to_string()).or_insert(0usize) += 1;
     };
     // 1. descriptions enumerated by TLC (IdiomsGen)
+    let mut model_index = 0usize;
     if let Some(p) = o.get("descs") {
         for line in std::fs::read_to_string(p).map_err(|e| e.to_string())?.lines().filter(|l| !l.trim().is_empty()) {
             let d: J = serde_json::from_str(line).map_err(|e| e.to_string())?;
-            let vars: Vec<VarDesc> = d["vars"].as_array().ok_or("vars")?.iter().filter_map(VarDesc::from_json).collect();
+            let mut vars: Vec<VarDesc> = d["vars"].as_array().ok_or("vars")?.iter().filter_map(VarDesc::from_json).collect();
+            // the description fixes what is stored where; the code style cycles through the variants
+            for (k, v) in vars.iter_mut().enumerate() {
+                v.style = (model_index + k) % 4;
+            }
+            model_index += 1;
             let code = idioms::compile(&vars);
             let desc = json!({"vars": vars.iter().map(VarDesc::to_json).collect::<Vec<_>>()});
             let obs = observe(&code, &lim);
@@ -523,6 +638,36 @@ pub fn run(o: &Opts) -> R<()> {
             oks += 1;
         }
         emit(&mut ws, record(fam, &code, None, &obs), fam, &mut count);
+    }
+    // 3b. every region that ends within two bits of the end of the word, through SHR and through DIV
+    for end in 253u16..=259 {
+        for (width, mask) in [(1u16, vec![0x01u8]), (2, vec![0x03]), (8, vec![0xff]), (16, vec![0xff, 0xff]), (160, vec![0xff; 20])] {
+            if end < width {
+                continue;
+            }
+            let sh = end - width;
+            for via_div in [false, true] {
+                let mut items = vec![p1(0), Item::Op(0x54)];
+                if via_div {
+                    if sh > 255 {
+                        continue;
+                    }
+                    let mut pow = [0u8; 32];
+                    pow[31 - (sh / 8) as usize] = 1 << (sh % 8);
+                    let first = pow.iter().position(|b| *b != 0).unwrap();
+                    items.extend([Item::Push(pow[first..].to_vec()), Item::Op(0x90), Item::Op(0x04)]);
+                } else {
+                    items.extend([Item::Push(vec![(sh >> 8) as u8, (sh & 0xff) as u8]), Item::Op(0x1c)]);
+                }
+                items.extend([Item::Push(mask.clone()), Item::Op(0x16), p1(1), Item::Op(0x55), Item::Op(0x00)]);
+                let code = assemble(&items);
+                let obs = observe(&code, &lim);
+                if obs.res == "ok" {
+                    oks += 1;
+                }
+                emit(&mut ws, record("word-edge", &code, None, &obs), "word-edge", &mut count);
+            }
+        }
     }
     // 4. C11: composition of fragments with disjoint slot sets, and renumbering
     let mut compose = 0usize;
